@@ -306,6 +306,15 @@ impl DelphiLogicalLinesReconstructor {
     }
 }
 
+/// The text of a token may have changed (a blank inserted after `//`, a re-indented multi-line
+/// string), so an offset that was on a character boundary before may lie inside a character now.
+fn floor_char_boundary(text: &str, offset: usize) -> usize {
+    (0..=offset)
+        .rev()
+        .find(|&index| text.is_char_boundary(index))
+        .unwrap_or(0)
+}
+
 impl CursorTracker for CursorTrackerImpl<'_> {
     fn notify_token_deleted(&mut self, deleted_token: usize) {
         for cursor in &mut self.cursors {
@@ -343,7 +352,9 @@ impl CursorTracker for CursorTrackerImpl<'_> {
             cursor.cursor.0 = match cursor.tok_pos {
                 TokPos::Content { offset } => {
                     // offset into the token content, but don't go over the end of the token if its length has changed
-                    new_token_offset as u32 + offset.min(tok.get_content().len() as u32)
+                    let content = tok.get_content();
+                    let offset = (offset as usize).min(content.len());
+                    (new_token_offset + floor_char_boundary(content, offset)) as u32
                 }
                 TokPos::MultilineContent {
                     reverse_col,
@@ -359,8 +370,9 @@ impl CursorTracker for CursorTrackerImpl<'_> {
 
                     // The content may have become shorter (re-indented multi-line string), in which
                     // case the cursor must not move in front of the token.
-                    (new_token_offset + tok.get_content().len().saturating_sub(offset_from_end))
-                        as u32
+                    let content = tok.get_content();
+                    let offset = content.len().saturating_sub(offset_from_end);
+                    (new_token_offset + floor_char_boundary(content, offset)) as u32
                 }
                 TokPos::Whitespace {
                     col,
